@@ -64,3 +64,9 @@ if opt('--dump'):
 if opt('--atom'):
     from pyvc.types import atom_name
     for a in opt('--atom'): print('ATOM', a, repr(atom_name(int(a))))
+if opt('--core'):
+    hs = [h for h in smt.flatten_hyps(ob.pc)]
+    s2 = z3.Solver(); s2.set(unsat_core=True); s2.set('timeout', 20000)
+    for i,h in enumerate(hs): s2.assert_and_track(h, f'h{i}')
+    print('PC check:', s2.check())
+    for x in s2.unsat_core(): print('CORE>', str(hs[int(str(x)[1:])])[:400].replace('\n',' '))
